@@ -120,6 +120,7 @@ func Load(repo string, cfg BuildConfig) (*Ctx, error) {
 	}
 	c.computeRenames()
 	c.indexBoolLocals()
+	c.indexPredCalls()
 	return c, nil
 }
 
